@@ -105,16 +105,37 @@ func c04Register[A, J, E any, PA c04Aff[A, J, E], PJ c04Jac[A, J, E], PE c04Fr[E
 			var p0, d A
 			PA(&p0).ScalarMultiplication(&gen, in.A0[0])
 			PA(&d).ScalarMultiplication(&gen, in.D)
-			jac := make([]J, n)
+			nb := n
+			if in.nbase > 0 && in.nbase < n {
+				nb = in.nbase // only base[0 .. nbase) is referenced
+			}
+			jac := make([]J, nb)
 			var cur J
 			PJ(&cur).FromAffine(&p0)
-			for i := 0; i < n; i++ {
+			for i := 0; i < nb; i++ {
 				jac[i] = cur
 				PJ(&cur).AddMixed(&d)
 			}
-			base := make([]A, n)
-			c04Par(n, func(i int) { PA(&base[i]).FromJacobian(&jac[i]) })
+			base := make([]A, nb)
+			c04Par(nb, func(i int) { PA(&base[i]).FromJacobian(&jac[i]) })
+			direct := map[string]*A{} // src < 0: the point [A[i]]G by plain ScalarMultiplication (few distinct values)
+			var lastA *big.Int
+			var lastQ *A
 			for i := 0; i < n; i++ {
+				if in.src[i] < 0 {
+					if av[i] != lastA { // runs of the same *big.Int (inactive entries) skip the lookup
+						key := av[i].Text(16)
+						q, ok := direct[key]
+						if !ok {
+							q = new(A)
+							PA(q).ScalarMultiplication(&gen, av[i])
+							direct[key] = q
+						}
+						lastA, lastQ = av[i], q
+					}
+					points[i] = *lastQ
+					continue
+				}
 				switch in.sgn[i] {
 				case 1:
 					points[i] = base[in.src[i]]
@@ -233,9 +254,10 @@ func (r *c04sm) nextFr(limbs int, mod *big.Int) *big.Int {
 type c04Input struct {
 	A, S, A0 []*big.Int
 	D        *big.Int // step of the arithmetic progression (prog mode)
-	src      []int
+	src      []int    // index into the base progression; < 0: the point is computed directly from A[i]
 	sgn      []int8
 	prog     bool
+	nbase    int // prog mode: number of base points referenced (0 = n)
 }
 
 // from this size on the base exponents are the progression A0[0] + i·A0[1] (cheap reference points)
@@ -246,7 +268,35 @@ func c04Vectors(r *big.Int, seed uint64, n, shape int) (A, S []*big.Int) {
 	return in.A, in.S
 }
 
+// shapes 0x5000 + b: shape b, then the scalar of the last finite point is replaced by the value that makes the exact
+// sum the point at infinity (cancellation in the very last addition of the reduction, whatever n and c)
 func c04MkInput(r *big.Int, seed uint64, n, shape int) *c04Input {
+	if shape/4096 != 5 {
+		return c04MkInputBase(r, seed, n, shape)
+	}
+	in := c04MkInputBase(r, seed, n, shape%4096)
+	f := -1
+	for i := range in.A {
+		if in.A[i].Sign() != 0 {
+			f = i
+		}
+	}
+	if f < 0 {
+		return in
+	}
+	e, t := new(big.Int), new(big.Int)
+	for i := range in.A {
+		if i != f {
+			e.Add(e, t.Mul(in.A[i], in.S[i]))
+		}
+	}
+	e.Neg(e).Mod(e, r)
+	inv := new(big.Int).Exp(in.A[f], new(big.Int).Sub(r, big.NewInt(2)), r)
+	in.S[f] = e.Mul(e, inv).Mod(e, r)
+	return in
+}
+
+func c04MkInputBase(r *big.Int, seed uint64, n, shape int) *c04Input {
 	bits := r.BitLen()
 	limbs := (bits + 63) / 64
 	sm := &c04sm{s: seed}
@@ -269,8 +319,13 @@ func c04MkInput(r *big.Int, seed uint64, n, shape int) *c04Input {
 	}
 	A := make([]*big.Int, n)
 	S := make([]*big.Int, n)
+	var tinv *big.Int
+	if shape == 17 && n > 0 {
+		tinv = new(big.Int).Exp(S0[0], new(big.Int).Sub(r, big.NewInt(2)), r)
+	}
 	for i := 0; i < n; i++ {
 		src, sgn, s := i, int8(1), S0[i]
+		var adirect *big.Int
 		switch shape {
 		case 1:
 			src = 0
@@ -322,6 +377,32 @@ func c04MkInput(r *big.Int, seed uint64, n, shape int) *c04Input {
 			s = S0[i%3]
 		case 14: // small negative scalars r-1 … r-7: the digits of r, top digit maximal
 			s = new(big.Int).Sub(r, big.NewInt(int64(1+i%7)))
+		case 15: // [P, P] with [s, -s]: the exact sum is infinity, no chunk sum is
+			src = i / 2 * 2
+			if i%2 == 1 {
+				s = new(big.Int).Sub(r, S0[i-1])
+				s.Mod(s, r)
+			} else if i+1 == n {
+				s = new(big.Int)
+			}
+		case 16: // second half = -(first half) with the same scalars
+			h := n / 2
+			switch {
+			case i < h:
+			case i < 2*h:
+				src, sgn, s = i-h, -1, S0[i-h]
+			default:
+				s = new(big.Int)
+			}
+		case 17: // [P, -P/t], t = s_0: Fold sums to infinity
+			if i%2 == 1 {
+				v := new(big.Int).Mul(A0[i-1], tinv)
+				v.Mod(v, r)
+				adirect = v.Sub(r, v).Mod(v, r)
+				src = -1
+			} else if i+1 == n {
+				sgn = 0
+			}
 		default:
 			// parametrised scalar shapes <kind>·0x1000 + k (chunk statistics: which windows are hit)
 			k := uint(shape % 4096)
@@ -341,10 +422,12 @@ func c04MkInput(r *big.Int, seed uint64, n, shape int) *c04Input {
 			}
 		}
 		var a *big.Int
-		switch sgn {
-		case 0:
+		switch {
+		case adirect != nil:
+			a = adirect
+		case sgn == 0:
 			a = new(big.Int)
-		case 1:
+		case sgn == 1:
 			a = A0[src]
 		default:
 			a = new(big.Int).Sub(r, A0[src])
@@ -399,7 +482,16 @@ func execC04(a []string) string {
 	if len(a) == 0 {
 		return "bad-op"
 	}
+	if !c04IsChild && !c04NoIso && (a[0] == "MSM" || a[0] == "MSMX" || a[0] == "BSM") {
+		n := 0
+		if len(a) > 12 {
+			n = c04ParseInt(a[12]) // MSM, MSMX: number of points (sizes the deadline)
+		}
+		return c04Isolated(a, n)
+	}
 	switch a[0] {
+	case "MSMX":
+		return c04ExecX(a)
 	case "MSM":
 		if len(a) != 18 {
 			return "bad-op"
@@ -429,25 +521,7 @@ func execC04(a []string) string {
 				fmt.Fprintln(os.Stderr, "slow:", d, a[1], a[2], a[3], a[12], a[13], a[14], a[15])
 			}
 		}()
-		ch := make(chan string, 1)
-		go func() {
-			defer func() {
-				if r := recover(); r != nil {
-					ch <- "panic"
-				}
-			}()
-			ch <- g.run(api, in, nbTasks, gmp)
-		}()
-		select {
-		case res := <-ch:
-			return res
-		case <-time.After(c04Timeout(n)):
-			// the call did not return (lost token / deadlock): same answer as the per-op watchdog of main.go.
-			// Its goroutines stay blocked; the GOMAXPROCS it may have changed is put back for the following ops.
-			c04Hangs++
-			runtime.GOMAXPROCS(runtime.NumCPU())
-			return "timeout"
-		}
+		return c04Guarded(g, api, in, n, nbTasks, gmp)
 	case "BSM":
 		// C04 BSM <curve> <grp> <tower> <p> <a> <b> <r> <Gx> <Gy> <seed> <n> <shape>
 		if len(a) != 13 {
@@ -664,6 +738,8 @@ func genC04(g *gen) {
 	for gi, key := range c04Order {
 		g.c04Stats(c04Groups[key], gi)
 	}
+	// (8) cancellation classes, (9) batch-affine scheduler orderings (c04x.go)
+	genC04X(g)
 }
 
 // ---------------------------------------------------------------- (7) chunk statistics × window bands × semaphore
